@@ -2,6 +2,7 @@ import MesaModel.Proofs.Legacy
 import MesaModel.Proofs.LegacyOrth
 import MesaModel.Proofs.LegacyHex
 import MesaModel.Proofs.LegacyNet
+import MesaModel.Proofs.LegacyDist
 /-!
 # C09 — legacy neighbourhood queries return exactly the cells/agents in range
 
@@ -21,6 +22,17 @@ namespace Mesa.Legacy
 theorem C09_orth_spec (d : Dim) (hw : 0 < d.w) (hh : 0 < d.h) (k : NKey) (l : List Coord) (h : nbhdCompute d k = .ok l) :
     l.Nodup ∧ ∀ c, c ∈ l ↔ d.inGrid c ∧ (c = k.pos → k.ic = true) ∧ (c ≠ k.pos → InRange d k.pos k.moore k.r c) :=
   orth_spec d hw hh k l h
+
+/-- **"in range" is a distance bound**: on a bounded grid the Chebyshev (Moore) / Manhattan (von Neumann)
+    distance to the centre is at most r; on a torus the same with the per-axis distance taken modulo the
+    size (`IsTorusDist`: the least distance between the residue classes) -/
+theorem C09_in_range_is_distance (d : Dim) (pos : Coord) (moore : Bool) (r : Nat) (c : Coord) :
+    (d.torus = false → (InRange d pos moore r c ↔
+      Grid.iabs (c.1 - pos.1) ≤ r ∧ Grid.iabs (c.2 - pos.2) ≤ r ∧
+        (moore = true ∨ Grid.iabs (c.1 - pos.1) + Grid.iabs (c.2 - pos.2) ≤ r))) ∧
+    (d.torus = true → d.inGrid c → ∀ mx my, IsTorusDist d.w c.1 pos.1 mx → IsTorusDist d.h c.2 pos.2 my →
+      (InRange d pos moore r c ↔ mx ≤ r ∧ my ≤ r ∧ (moore = true ∨ mx + my ≤ r))) :=
+  ⟨fun h => inRange_bounded d h pos moore r c, fun ht hc mx my hx hy => inRange_torus d ht pos moore r c hc mx my hx hy⟩
 
 /-- the query is answered for every centre in the grid and rejected (`out of bounds`) for every other -/
 theorem C09_orth_defined_iff_in_grid (d : Dim) (k : NKey) :
